@@ -100,6 +100,11 @@ CHECKS = {
    technique="stateful property-based testing (proptest): generated schedules of commit/push/fetch/pull steps by 2-3 clones of one bare remote; ledger-based safety invariant after every step and convergence check after the closing phase",
    text="Generated schedules of AI/human commits, pushes (branch / --all), fetches and pulls (merge / rebase) by two or three clones, including non-fast-forward notes pushes and first-time syncs in both directions, then the closing phase (everyone pushes, then everyone fetches). A ledger commit -> (author clone, note text) is the oracle: after every step no repository loses an annotated commit, every note still records its own commit and equals the ledger entry; at the end the remote and every clone hold the ledger note for every ledger commit they have.",
    note="Steps are atomic (one git process at a time). Clones edit disjoint files so that branch merges/rebases never conflict textually."),
+ "C11": dict(
+   level="exploration", design="DESIGN.md §2 C11",
+   technique="schedule exploration: the harness owns the interleaving through guarded sync points (exhaustive enumeration of the two-process checkpoint schedules, proptest-sampled schedules for the other scenarios); oracle = equality with some serial execution",
+   text="Real git-ai processes (agent checkpoints, a wrapped commit, a rebase in a linked worktree) are started with the verification sync directory set; each parks before the read and before the write of every journal update and before every notes update, and a controller releases them one at a time following a generated schedule (all 16 schedules of the two-process checkpoint scenarios in every run). The observable outcome - attestation set of every note, blame of every file in every worktree after a final commit, parseability of journals - must equal the outcome of running the same processes one after another in some order from the same initial state.",
+   note="Uses the guarded hook `verif::sync_point` (feature verif-hooks). Only interleavings at instrumented points are controlled; a process that does not reach a point within 1.5 s is treated as blocked (lock) - a scheduling signal, never a verdict. Two defects found this way were repaired (journal lock, batch notes retry)."),
 }
 
 NOT_YET = "check not built yet (work in progress; see DESIGN.md section 2 for the plan)"
